@@ -2,30 +2,47 @@
 (* TetraWeightsParal.weight_1k1b_priv: one band in one parallelepiped K-point (8 corner energies, centre energy);
    every assignment of corner energies from CVALS, centre from CENTERS, Fermi level from EFS, der 0..3 *)
 EXTENDS TetraWeights
-CONSTANTS CVALS, CENTERS, EFS1     \* EFS1 = Fermi levels + 1 (cfg files cannot hold negative numbers)
-VARIABLES ec, c, ef, der, admissible, welldef, w, closed
-vars == <<ec, c, ef, der, admissible, welldef, w, closed>>
+CONSTANTS CVALS, CENTERS, EFS1,    \* EFS1 = Fermi levels + 1 (cfg files cannot hold negative numbers)
+          DERS, CUBELIM            \* derivative orders; number of cubes kept (pseudo-random subset of the 2^8 .. assignments)
+VARIABLES ec, c, ef, der, admissible, welldef, w, closed, planar, pc
+vars == <<ec, c, ef, der, admissible, welldef, w, closed, planar, pc>>
 EFS == {x - 1 : x \in EFS1}
 NA == <<0, 0>>
-Cubes == [1..2 -> [1..2 -> [1..2 -> CVALS]]]
+(* a reproducible subset of the cubes: rank of the assignment in base |CVALS|, scrambled by an odd multiplier *)
+Rank(v) == Cardinality({u \in CVALS : u < v})
+CubeCode(cc) == LET n == Cardinality(CVALS) IN
+   Rank(cc[1][1][1]) + n * (Rank(cc[1][1][2]) + n * (Rank(cc[1][2][1]) + n * (Rank(cc[1][2][2]) + n * (Rank(cc[2][1][1])
+      + n * (Rank(cc[2][1][2]) + n * (Rank(cc[2][2][1]) + n * Rank(cc[2][2][2])))))))
+NCubes == LET n == Cardinality(CVALS) IN n * n * n * n * n * n * n * n
+Cubes == {cc \in [1..2 -> [1..2 -> [1..2 -> CVALS]]] : (CubeCode(cc) * 37) % NCubes < CUBELIM}
 T(cc, e0) == ParalTetrahedra(e0, cc)
 Adm(cc, e0, x) == \A t \in 1..12 : NotOnDegenerateCorner(x, T(cc, e0)[t])
 Wd(cc, e0, x, d) == \A t \in 1..12 : WellDefined(x, T(cc, e0)[t], d)
 CodeW(cc, e0, x, d) == ParalWeight(LAMBDA ee, y : WeightsTetra(y, ee, d, TRUE), e0, cc, x)
 ClosedW(cc, e0, x, d) == ParalWeight(LAMBDA ee, y : ClosedOcc(ee, y, d), e0, cc, x)
-Init == /\ c \in Cubes /\ ec \in CENTERS /\ ef \in EFS /\ der \in 0..3
-        /\ admissible = Adm(c, ec, ef) /\ welldef = Wd(c, ec, ef, der)
-        /\ w = (IF admissible THEN CodeW(c, ec, ef, der) ELSE NA)
-        /\ closed = (IF welldef THEN ClosedW(c, ec, ef, der) ELSE NA)
-Next == UNCHANGED vars
+(* Init only chooses the input (TLC computes initial states in one thread); the action Build evaluates the weights *)
+Init == /\ c \in Cubes /\ ec \in CENTERS /\ ef \in EFS /\ der \in DERS
+        /\ admissible = Adm(c, ec, ef) /\ welldef = Wd(c, ec, ef, der) /\ planar = FacesPlanar(c)
+        /\ w = NA /\ closed = NA /\ pc = "input"
+Build == /\ pc = "input" /\ pc' = "done"
+         /\ w' = (IF admissible THEN CodeW(c, ec, ef, der) ELSE NA)
+         /\ closed' = (IF welldef THEN ClosedW(c, ec, ef, der) ELSE NA)
+         /\ UNCHANGED <<ec, c, ef, der, admissible, welldef, planar>>
+Next == Build
 Spec == Init /\ [][Next]_vars
+Built == pc = "done"
 
 AllE == {ec} \cup {c[x][y][z] : x \in 1..2, y \in 1..2, z \in 1..2}
-ParalCodeEqualsClosed == (admissible /\ welldef) => w = closed
-ParalUnitRange == (der = 0 /\ welldef) => InUnitRange(closed)
-ParalOutside == welldef => /\ ef < Min(AllE) => closed = RZero
+ParalCodeEqualsClosed == (Built /\ admissible /\ welldef) => w = closed
+ParalUnitRange == (Built /\ der = 0 /\ welldef) => InUnitRange(closed)
+ParalOutside == (Built /\ welldef) => /\ ef < Min(AllE) => closed = RZero
                            /\ ef > Max(AllE) => closed = (IF der = 0 THEN ROne ELSE RZero)
-ParalMonotone == (der = 0 /\ welldef /\ (ef + 1) \in EFS /\ Wd(c, ec, ef + 1, 0)) => RLe(closed, ClosedW(c, ec, ef + 1, 0))
+ParalMonotone == (Built /\ der = 0 /\ welldef /\ (ef + 1) \in EFS /\ Wd(c, ec, ef + 1, 0)) => RLe(closed, ClosedW(c, ec, ef + 1, 0))
+(* on cubes with planar faces the choice of the face diagonals does not matter; in general the code's value lies between
+   the face-wise bounds *)
+OtherW(cc, e0, x, d) == RDivI(RSumSeq([t \in 1..12 |-> ClosedOcc(ParalTetrahedraOther(e0, cc)[t], x, d)]), 12)
+WdOther(cc, e0, x, d) == \A t \in 1..12 : WellDefined(x, ParalTetrahedraOther(e0, cc)[t], d)
+PlanarDiagonalFree == (Built /\ planar /\ welldef /\ WdOther(c, ec, ef, der)) => OtherW(c, ec, ef, der) = closed
 (* the decomposition: label the corners 1..8; the two tetrahedra of a face cover its four corners, share the diagonal
    [0,0]-[1,1] and the centre (label 0); every corner belongs to 3 faces *)
 Label == [x \in 1..2 |-> [y \in 1..2 |-> [z \in 1..2 |-> 4 * (x - 1) + 2 * (y - 1) + z]]]
